@@ -7,7 +7,7 @@
    sizes and all data-member registers are exactly as before (strong guarantee incl. "nothing leaked"). *)
 From Coq Require Import List Arith Lia Bool ZArith.
 From MomoCommon Require Import GenPrelude.
-From C04 Require Gen_OpenN1_exn Gen_Open2N2_exn OpenExn Gen_LimP4_exn LimP4Exn OpenRefine Gen_ArrReset_exn ArrResetExn Gen_C04Facts FactsTie Gen_XCheckH Gen_XCheckT XCheck NonVacuity.
+From C04 Require Gen_OpenN1_exn Gen_Open2N2_exn OpenExn Gen_LimP4_exn LimP4Exn OpenRefine Gen_ArrReset_exn ArrResetExn Gen_C04Facts FactsTie Gen_XCheckH Gen_XCheckT XCheck NonVacuity MigrateStep.
 From C04 Require Import Effects ObjMgr ArrayData Ctor KeyValue Tree Relocator Replace PlanWf MultiMap SetCount HashGrow Shifter.
 Import ListNotations.
 
@@ -806,7 +806,36 @@ Print Assumptions kvr_pre_satisfiable.
 Theorem kvrr_pre_satisfiable : Replace.kvrr_pre (0, 0) (0, 1) (2, 0) (2, 1) (1, 0) (1, 1) 10 11 7 8 NonVacuity.wit_heap.
 Proof. exact NonVacuity.kvrr_pre_witness. Qed.
 Print Assumptions kvrr_pre_satisfiable.
-(* step_ok (hypothesis of relocate_items_swallow): satisfiable by the empty step only; no instance for a real relocation step is proved *)
-Theorem step_ok_satisfiable_trivially : forall X (obs : heap -> X) (Inv : heap -> Prop), HashGrow.step_ok X obs Inv (ret tt).
-Proof. exact NonVacuity.step_ok_witness. Qed.
-Print Assumptions step_ok_satisfiable_trivially.
+(* step_ok (hypothesis of relocate_items_swallow) for the REAL migration step: relocate the item of a (source slot, destination slot) pair with
+   ObjectManager's single-object relocation (relocate1: move-construct -- for a copy-only element a copy that may throw -- then destroy the source),
+   for every element category, every plan over pairwise distinct cells, every schedule; observable = the item of every pair, invariant = exactly
+   one slot of every pair holds it *)
+Theorem migrate_step_is_step_ok :
+  forall (c : cat) (prs : list (loc * loc)) (p : loc * loc),
+    MigrateStep.pairs_disjoint prs -> In p prs ->
+    HashGrow.step_ok (list (option nat)) (MigrateStep.mig_obs prs) (MigrateStep.mig_inv prs) (MigrateStep.migrate_step c p).
+Proof. exact MigrateStep.migrate_step_ok. Qed.
+Print Assumptions migrate_step_is_step_ok.
+
+(* relocate_items_swallow instantiated: a whole lazy migration never throws and the items visible through old + new table are unchanged *)
+Theorem relocate_items_real_migration :
+  forall (c : cat) (prs : list (loc * loc)) s,
+    MigrateStep.pairs_disjoint prs -> MigrateStep.mig_inv prs (hp s) ->
+    wp (relocate_items (map (MigrateStep.migrate_step c) prs)) s
+       (fun _ s' => MigrateStep.mig_obs prs (hp s') = MigrateStep.mig_obs prs (hp s) /\ MigrateStep.mig_inv prs (hp s')) (fun _ => False).
+Proof. exact MigrateStep.relocate_items_migration. Qed.
+Print Assumptions relocate_items_real_migration.
+
+(* the hypotheses are satisfiable and the observable is not trivial; a copy-only migration interrupted by a throwing copy stops without an exception *)
+Theorem migration_plan_witness :
+  MigrateStep.pairs_disjoint MigrateStep.mig_plan /\ MigrateStep.mig_inv MigrateStep.mig_plan MigrateStep.mig_heap /\
+  MigrateStep.mig_obs MigrateStep.mig_plan MigrateStep.mig_heap = [Some 10; Some 11].
+Proof. exact MigrateStep.mig_plan_witness. Qed.
+Print Assumptions migration_plan_witness.
+
+Theorem migration_interrupted_by_throwing_copy :
+  exists s', relocate_items (map (MigrateStep.migrate_step CPY) MigrateStep.mig_plan) (mkS MigrateStep.mig_heap [false; true] []) = (Effects.Ok tt, s') /\
+             mem (hp s') (0, 0) = Raw /\ mem (hp s') (1, 1) = Live 10 /\ mem (hp s') (0, 1) = Live 11 /\ mem (hp s') (1, 0) = Raw /\
+             MigrateStep.mig_obs MigrateStep.mig_plan (hp s') = [Some 10; Some 11].
+Proof. exact MigrateStep.mig_plan_interrupted_run. Qed.
+Print Assumptions migration_interrupted_by_throwing_copy.
